@@ -55,6 +55,22 @@ class UnmodelledConstruct(AnalysisError):
         self.name = name
 
 
+class OpaqueValue:
+    """value of an adapter attribute the layout evaluator does not compute (it does not take part in sizes or offsets)"""
+
+    def __init__(self, text):
+        self.text = text
+
+    def __repr__(self):
+        return f"<{self.text}>"
+
+    def __eq__(self, other):
+        return isinstance(other, OpaqueValue) and other.text == self.text
+
+    def __hash__(self):
+        return hash(self.text)
+
+
 class SymCond:
     """a comparison over values parsed from the stream (this.count > 0): decided per file, not per layout"""
 
@@ -656,7 +672,15 @@ class LayoutEval:
                 continue
             if isinstance(st, ast.Assign) and len(st.targets) == 1:
                 t = st.targets[0]
-                v = self.ev(st.value, mod, local)
+                try:
+                    v = self.ev(st.value, mod, local)
+                except UnmodelledConstruct:
+                    raise
+                except AnalysisError:
+                    if isinstance(t, ast.Attribute) and isinstance(t.value, ast.Name) and t.value.id == "self":
+                        v = OpaqueValue(norm(st.value))  # a derived attribute that plays no part in the layout (a cached ratio, a compiled pattern)
+                    else:
+                        raise
                 if isinstance(t, ast.Name):
                     local[t.id] = v
                     continue
@@ -820,8 +844,8 @@ def _plain_attrs(attrs):
             out[k] = {kk: vv for kk, vv in v.items() if isinstance(vv, (int, float, str, bool, type(None)))}
         elif isinstance(v, This):
             out[k] = repr(v)
-        elif isinstance(v, Con):
-            continue
+        elif isinstance(v, (Con, OpaqueValue)):
+            continue  # sub-constructs are described on their own; derived attributes are judged through _decode's semantics
         else:
             out[k] = repr(v)
     return out
